@@ -24,12 +24,14 @@ def run(prog, chk):
         "the invalid-character pattern is the complement of [0-9A-Za-z_.] (R11.6)",
     ]
     chk.not_decided += ["byte identity of the other tables (fontTools compile / reload)", "the glyph order itself"]
+    chk.decided += ["each variable font is post-processed with its own UFO / info / glyph set, never with compiler state of the last interpolable sub-space (R11.7)"]
     chk.guard(r111, prog, chk)
     chk.guard(r112, prog, chk)
     chk.guard(r113, prog, chk)
     chk.guard(r114, prog, chk)
     chk.guard(r115, prog, chk)
     chk.guard(r116, prog, chk)
+    chk.guard(r117, prog, chk)
 
 
 def _keep_var(prog, f) -> str:
@@ -362,7 +364,49 @@ def r116(prog, chk):
     chk.minimum("R11.6", 2)
 
 
+
+# ----------------------------------------------------------------------------- R11.7
+def r117(prog, chk):
+    """Each variable font is post-processed against ITS OWN default source: inside compile_variable's per-font loop the UFO, the
+    info and the glyph set handed to the post-processor are looked up per font (or the glyph set is None: the post-processor
+    then takes the UFO) - never compiler-level state such as self.glyphSets / self.instantiator, which the loop over the
+    interpolable sub-spaces overwrites and which describes the last sub-space only."""
+    ix = prog.ix
+    cv = ix.get_method("ufo2ft._compilers.baseCompiler.BaseInterpolatableCompiler", "compile_variable", own=True)
+    calls = [c for c in calls_named(cv, "postprocess")]
+    need(calls, f"cannot interpret {cv.short}: postprocess call")
+    for c in calls:
+        loops = [a for a in ix.ancestors(c) if isinstance(a, ast.For)]
+        lv = set(A.target_names(loops[0].target)) if loops else set()
+        okl = bool(loops)
+
+        def per_font(e, depth=0):
+            """e is None, a loop variable, or a lookup keyed by a loop variable (followed through local definitions)"""
+            if depth > 5:
+                return False
+            if isinstance(e, ast.Constant):
+                return e.value is None
+            if any(isinstance(x, ast.Attribute) and isinstance(x.value, ast.Name) and x.value.id == "self" for x in ast.walk(e)):
+                return False
+            if isinstance(e, ast.Name):
+                if e.id in lv:
+                    return True
+                ds = prog.reaching(cv, e.id, e)
+                return bool(ds) and all(d.value is not None and per_font(d.value, depth + 1) and any(isinstance(x, ast.Name) and (x.id in lv or per_font(x, depth + 1)) for x in ast.walk(d.value)) for d in ds)
+            if isinstance(e, ast.Subscript):
+                return any(isinstance(x, ast.Name) and x.id in lv for x in ast.walk(e.slice)) or per_font(e.value, depth + 1)
+            return any(isinstance(x, ast.Name) and x.id in lv for x in ast.walk(e))
+        args = list(c.args[1:]) + [k.value for k in c.keywords]
+        bad = [T(a, 40) for a in args if not per_font(a)]
+        chk.ob("R11.7", f"{cv.short}|each variable font is post-processed with its own UFO / info / glyph set", okl and not bad, where(cv, c), detail=T(c, 90),
+               message=f"{cv.short}: the post-processor of a variable font is handed {bad}, which is not looked up for that font: with several interpolable sub-spaces the production "
+                       f"names (and everything else the post-processor derives from the glyph set) come from the last sub-space's default master")
+    chk.minimum("R11.7", 1)
+
+
 MUTANTS = [
+    M("variable fonts post-processed with the last sub-space's glyph set (seeded C11g)", "ufo2ft/_compilers/baseCompiler.py", "BaseInterpolatableCompiler.compile_variable",
+      "self.postprocess(varfont, ufo, glyphSet=None, info=info)", "self.postprocess(varfont, ufo, glyphSet=self.glyphSets[self.instantiator.default_source_idx], info=info)", rule="R11.7"),
     M("CFF2 re-keyed even when not yet decompiled (seeded C11d shape)", "ufo2ft/postProcessor.py", "PostProcessor.rename_glyphs",
       "cff_tag == 'CFF ' or (cff_tag == 'CFF2' and otf.isLoaded(cff_tag))", "cff_tag is not None", rule="R11.2"),
     M("loaded CFF2 no longer re-keyed", "ufo2ft/postProcessor.py", "PostProcessor.rename_glyphs",
